@@ -218,6 +218,19 @@ Proof.
   apply Qmult_lt_0_compat; [|exact HR]. change 0 with (inject_Z 0). rewrite <- Zlt_Qlt. lia.
 Qed.
 
+(* the first-guess ramp is the least positive raster multiple whose triangle respects the slew limit *)
+Lemma rise1_least (k : Z) : (1 <= k)%Z ->
+  Qabs area / S <= (inject_Z k * R) * (inject_Z k * R) -> sp_rise1 <= inject_Z k * R.
+Proof.
+  intros Hk H. unfold sp_rise1.
+  assert (Hn : (ceil_sqrt_div (Qabs area / S) R <= k)%Z).
+  { apply ceil_sqrt_div_least; [exact HR|exact absS_nonneg|lia|exact H]. }
+  destruct (Qmax_case (inject_Z (ceil_sqrt_div (Qabs area / S) R) * R) R) as [E|E]; rewrite E.
+  - apply Qmult_le_compat_r; [|lra]. rewrite <- Zle_Qle. exact Hn.
+  - rewrite <- (Qmult_1_l R) at 1. apply Qmult_le_compat_r; [|lra].
+    change 1 with (inject_Z 1). rewrite <- Zle_Qle. exact Hk.
+Qed.
+
 (* everything the theorems need about the returned tuple *)
 Lemma shortest_spec amp r fl f : shortest_params area S G R = (amp, r, fl, f) ->
   f = r /\
@@ -228,7 +241,11 @@ Lemma shortest_spec amp r fl f : shortest_params area S G R = (amp, r, fl, f) ->
      [0, G], area-equivalent duration T (area = h*T), ramps at least h/S *)
   (forall h T, 0 <= h -> h <= G -> 0 < T -> Qabs area == h * T -> r + fl + f <= T + h / S + 2 * R) /\
   (* the designer's own result passes the limit checks that follow *)
-  Qabs amp <= G + eps /\ Qabs amp / r <= S.
+  Qabs amp <= G + eps /\ Qabs amp / r <= S /\
+  (* minimality of the chosen ramp: never longer than the shortest slew-feasible triangle ramp, and on
+     the plateau branch (flat > 0) the shortest raster multiple that ramps to the returned amplitude *)
+  r <= sp_rise1 /\
+  (0 < fl -> forall k : Z, (1 <= k)%Z -> Qabs amp <= S * (inject_Z k * R) -> r <= inject_Z k * R).
 Proof.
   unfold shortest_params. fold sp_rise1.
   destruct rise1_facts as [k [Hk [Ek [Hsq Hpred]]]].
@@ -290,12 +307,21 @@ Proof.
       rewrite E2, Eec. ring. }
     split.
     { unfold amp. field. lra. }
-    split; [|split].
+    split; [|split; [|split; [|split]]].
     2:{ pose proof eps_nonneg. fold amp. lra. }
     2:{ fold amp r2. apply Qdiv_le_iff; [apply Qlt_le_trans with R; [exact HR|unfold r2; apply Qmax_ub_r]|].
         assert (Ht : t <= r2).
         { apply Qle_trans with (ceil_raster t R); [apply ceil_raster_ge; exact HR|unfold r2; apply Qmax_ub_l]. }
         unfold t in Ht. apply Qdiv_le_iff in Ht; [|exact HS]. rewrite Qmult_comm. exact Ht. }
+    2:{ fold amp r2. exact Hr2. }
+    2:{ intros _ k' Hk' Hle. fold amp in Hle. fold amp r2.
+        assert (Htk : t <= inject_Z k' * R).
+        { unfold t. apply Qdiv_le_iff; [exact HS|]. rewrite Qmult_comm. exact Hle. }
+        assert (Hck : ceil_raster t R <= inject_Z k' * R) by (apply ceil_raster_least; assumption).
+        assert (HRk : R <= inject_Z k' * R).
+        { rewrite <- (Qmult_1_l R) at 1. apply Qmult_le_compat_r; [|lra].
+          change 1 with (inject_Z 1). rewrite <- Zle_Qle. exact Hk'. }
+        unfold r2. destruct (Qmax_case (ceil_raster t R) R) as [X|X]; rewrite X; assumption. }
     intros h T Hh0 HhG HT Earea.
     (* e + r2 < |area|/G + G/S + 2R <= T + h/S + 2R *)
     assert (Hgoal : Qabs area / G + G / S <= T + h / S).
@@ -329,11 +355,13 @@ Proof.
     { exists 0%Z. split; [lia|]. change (inject_Z 0) with 0. ring. }
     split.
     { field. lra. }
-    split; [|split].
+    split; [|split; [|split; [|split]]].
     2:{ apply Qltb_false in B. exact B. }
     2:{ rewrite (Qabs_div_pos _ _ Hr1). apply Qdiv_le_iff; [exact Hr1|]. apply Qdiv_le_iff; [exact Hr1|].
         apply (Qdiv_le_iff (Qabs area) S _ HS) in Hsq.
         assert (X : S * sp_rise1 * sp_rise1 == sp_rise1 * sp_rise1 * S) by ring. rewrite X. exact Hsq. }
+    2:{ lra. }
+    2:{ intro C. exfalso. lra. }
     intros h T Hh0 HhG HT Earea.
     assert (Hy : 0 <= h / S) by (apply Qdiv_pos_nonneg; assumption).
     destruct (Z.eq_dec k 1) as [K1|K1].
@@ -1027,7 +1055,7 @@ Proof.
   unfold area_path.
   destruct (shortest_params A (eff_max_slew a) (eff_max_grad a) (raster_of a)) as [[[amp r] fl] f] eqn:SP.
   destruct (shortest_spec A _ _ _ HS HG HR _ _ _ _ SP)
-    as (Ef & (k & Hk & Ek) & (m & Hm & Em) & _ & _ & Lg & Ls).
+    as (Ef & (k & Hk & Ek) & (m & Hm & Em) & _ & _ & Lg & Ls & _).
   subst f. unfold finish.
   assert (Hr : 0 < r).
   { rewrite Ek. apply Qmult_lt_0_compat; [|exact HR]. change 0 with (inject_Z 0). rewrite <- Zlt_Qlt. lia. }
